@@ -1,6 +1,7 @@
 package drivers
 
 import (
+	"encoding/binary"
 	"bytes"
 	"context"
 	"crypto/sha256"
@@ -406,6 +407,53 @@ func RunWire(c *Ctx, goldenDir string) error {
 		},
 	}
 	counts := map[string]int{}
+	offer := func(b []byte) {
+		for name, dec := range decoders {
+			res := "panic"
+			func() {
+				defer func() {
+					if p := recover(); p != nil {
+						c.Tr.Emit("Panic", world.F{"node": "wire", "where": "decode/" + name, "msg": trunc(fmt.Sprint(p)) + " input=" + hex.EncodeToString(b[:min(len(b), 40)])})
+					}
+				}()
+				res = dec(b)
+			}()
+			counts[name+"/"+res]++
+			if res == "nofix" || res == "panic" {
+				c.Tr.Emit("WMut", world.F{"type": name, "res": res, "input": hex.EncodeToString(b[:min(len(b), 60)])})
+			}
+		}
+	}
+	// boundary values of length fields: every 4-byte window of every valid encoding (the first 48 bytes; all of
+	// the short cursor-list encoding) overwritten with integers at and around the limits of the field's type -
+	// including 2^32 - offset - k, the values for which offset + length wraps around - little and big endian,
+	// and a maximal varint in front of every position
+	bounds := 0
+	for _, src := range seeds {
+		lim := len(src) - 4
+		if lim > 48 {
+			lim = 48
+		}
+		for o := 0; o <= lim; o++ {
+			vals := []uint32{0xFFFFFFFF, 0xFFFFFFFE, 0x80000000, 0x7FFFFFFF, 0x80000001, 0xFFFF0000, uint32(len(src)), uint32(len(src) - o), uint32(len(src) - o + 1)}
+			for k := uint32(0); k <= 8; k++ {
+				vals = append(vals, uint32(0)-uint32(o)-k, uint32(0)-uint32(o)+k)
+			}
+			for _, v := range vals {
+				le := append([]byte{}, src...)
+				binary.LittleEndian.PutUint32(le[o:], v)
+				offer(le)
+				be := append([]byte{}, src...)
+				binary.BigEndian.PutUint32(be[o:], v)
+				offer(be)
+				bounds += 2
+			}
+			mv := append(append(append([]byte{}, src[:o]...), 0xff, 0xff, 0xff, 0xff, 0xff, 0xff, 0xff, 0xff, 0xff, 0x01), src[o:]...)
+			offer(mv)
+			bounds++
+		}
+	}
+	c.Count("decode/boundary-inputs", bounds)
 	for i := 0; i < muts; i++ {
 		src := seeds[rng.Intn(len(seeds))]
 		var b []byte
@@ -427,21 +475,7 @@ func RunWire(c *Ctx, goldenDir string) error {
 		default:
 			b = append([]byte{}, seeds[rng.Intn(len(seeds))]...) // valid bytes of another type
 		}
-		for name, dec := range decoders {
-			res := "panic"
-			func() {
-				defer func() {
-					if p := recover(); p != nil {
-						c.Tr.Emit("Panic", world.F{"node": "wire", "where": "decode/" + name, "msg": trunc(fmt.Sprint(p)) + " input=" + hex.EncodeToString(b[:min(len(b), 40)])})
-					}
-				}()
-				res = dec(b)
-			}()
-			counts[name+"/"+res]++
-			if res == "nofix" || res == "panic" {
-				c.Tr.Emit("WMut", world.F{"type": name, "res": res, "input": hex.EncodeToString(b[:min(len(b), 60)])})
-			}
-		}
+		offer(b)
 	}
 	for k, v := range counts {
 		c.Count("decode/"+k, v)
